@@ -12,21 +12,23 @@ variable {β α : Type}
 structure Cfg.Safe (cfg : Cfg β α) : Prop where
   cas : cfg.publish = .cas
   reload : cfg.result = .reload
+  afterAll : cfg.timing = .afterAll
 
 structure Inv (cfg : Cfg β α) (s : State α) : Prop where
   /-- a thread about to load finds the cell set -/
   load_set : ∀ i, s.pc i = .load → s.cell ≠ none
   /-- a returned object is the published one -/
   done_cell : ∀ i v, s.pc i = .done (some v) → s.cell = some v
-  /-- an object waiting to be published is allocated, not yet published, not marked lost -/
-  pub_fresh : ∀ i m, s.pc i = .publish m → m < s.next ∧ s.cell ≠ some m ∧ s.lost m = false
+  /-- an owned object is allocated, private (not published), not marked lost -/
+  own_fresh : ∀ i m k b, s.pc i = .own m k b → m < s.next ∧ s.cell ≠ some m ∧ s.lost m = false ∧ k ≤ cfg.entries
+  /-- while merging it holds the first k entries; at the CAS it is complete -/
+  own_merging : ∀ i m k, s.pc i = .own m k false → s.heap m = some (cfg.decodeK cfg.buf k)
+  own_publishing : ∀ i m k, s.pc i = .own m k true → s.heap m = some cfg.full
   /-- object identities are unique to the decoding thread -/
-  pub_uniq : ∀ i j m, s.pc i = .publish m → s.pc j = .publish m → i = j
-  /-- the published object is allocated and never a loser -/
-  cell_ok : ∀ v, s.cell = some v → v < s.next ∧ s.lost v = false
+  own_uniq : ∀ i j m k k' b b', s.pc i = .own m k b → s.pc j = .own m k' b' → i = j
+  /-- the published object is allocated, never a loser, and complete -/
+  cell_ok : ∀ v, s.cell = some v → v < s.next ∧ s.lost v = false ∧ s.heap v = some cfg.full
   lost_alloc : ∀ m, s.lost m = true → m < s.next
-  /-- every allocated object holds the decoding of the buffer -/
-  heap_ok : ∀ m, m < s.next → s.heap m = some (cfg.decode cfg.buf)
   /-- presence: only threads that saw the bit set go on; `done none` only if it is clear -/
   pres_yes : ∀ i, s.pc i ≠ .checkPresent → s.pc i ≠ .done none → cfg.present = true
   pres_no : ∀ i, s.pc i = .done none → cfg.present = false
@@ -34,11 +36,43 @@ structure Inv (cfg : Cfg β α) (s : State α) : Prop where
 theorem inv_init (cfg : Cfg β α) : Inv cfg (init : State α) := by
   constructor <;> simp [init]
 
+macro "lazy_close" : tactic =>
+  `(tactic| (constructor <;> simp only [upd] at * <;> grind))
+
 theorem inv_step {cfg : Cfg β α} (safe : cfg.Safe) {s t : State α} (h : Inv cfg s) (st : Step cfg s t) : Inv cfg t := by
-  obtain ⟨h1, h2, h3, h4, h5, h6, h7, h8, h9⟩ := h
+  obtain ⟨h1, h2, h3, h4, h5, h6, h7, h8, h9, h10⟩ := h
   have hc := safe.cas
   have hr : ∀ m, afterPublish cfg m = .load := by intro m; simp [afterPublish, safe.reload]
-  cases st <;> constructor <;> simp only [upd, hr] <;> grind
+  have hm : ∀ m k, afterMerge cfg m k = .own m k false := by intro m k; simp [afterMerge, safe.afterAll]
+  have hl : ∀ m k, afterLoop cfg m k = .own m k true := by intro m k; simp [afterLoop, safe.afterAll]
+  have ha : ∀ m k, afterCas cfg m k = .load := by intro m k; simp [afterCas, safe.afterAll, hr]
+  cases st with
+  | present_no i hpc hp => lazy_close
+  | present_yes i hpc hp => lazy_close
+  | checkNil_nil i hpc hn => lazy_close
+  | checkNil_set i v hpc hv => lazy_close
+  | alloc i hpc => lazy_close
+  | merge i m k hpc hk =>
+    rw [hm]
+    have := h3 i m k false hpc
+    lazy_close
+  | merge_end i m k hpc hk =>
+    rw [hl]
+    have hf := h3 i m k false hpc
+    have hke : k = cfg.entries := by omega
+    have hfull : s.heap m = some cfg.full := by rw [h4 i m k hpc, hke]; rfl
+    lazy_close
+  | cas_win i m k hpc hp hn =>
+    rw [ha]
+    have := h3 i m k true hpc
+    have := h5 i m k hpc
+    lazy_close
+  | cas_lose i m k v hpc hp hv =>
+    rw [ha]
+    have := h3 i m k true hpc
+    lazy_close
+  | store i m k hpc hp => rw [hc] at hp; cases hp
+  | load i v hpc hv => lazy_close
 
 theorem inv_reachable {cfg : Cfg β α} (safe : cfg.Safe) {s : State α} (r : Reachable cfg s) : Inv cfg s := by
   induction r with
@@ -53,10 +87,10 @@ theorem step_cell_stable {cfg : Cfg β α} (safe : cfg.Safe) {s t : State α} (s
 
 /-- … and the only change is nil → a freshly decoded object -/
 theorem step_cell_change {cfg : Cfg β α} {s t : State α} (st : Step cfg s t) (hne : t.cell ≠ s.cell) (safe : cfg.Safe) :
-    s.cell = none ∧ ∃ i m, s.pc i = .publish m ∧ t.cell = some m := by
+    s.cell = none ∧ ∃ i m k, s.pc i = .own m k true ∧ t.cell = some m := by
   have hc := safe.cas
   cases st <;> simp_all
-  all_goals exact ⟨_, by assumption⟩
+  all_goals exact ⟨_, _, by assumption⟩
 
 theorem steps_cell_stable {cfg : Cfg β α} (safe : cfg.Safe) {s t : State α} (h : Steps cfg s t) {v : Nat}
     (hv : s.cell = some v) : t.cell = some v := by
@@ -84,11 +118,20 @@ theorem enabled {cfg : Cfg β α} (safe : cfg.Safe) {s : State α} (r : Reachabl
     cases hcell : s.cell with
     | none => exact ⟨_, Step.checkNil_nil s i hpc hcell, by simp [upd]⟩
     | some v => exact ⟨_, Step.checkNil_set s i v hpc hcell, by simp [upd]⟩
-  | decode => exact ⟨_, Step.decode s i hpc, by simp [upd]⟩
-  | publish m =>
-    cases hcell : s.cell with
-    | none => exact ⟨_, Step.cas_win s i m hpc safe.cas hcell, by simp [upd, hr]⟩
-    | some v => exact ⟨_, Step.cas_lose s i m v hpc safe.cas hcell, by simp [upd, hr]⟩
+  | decode => exact ⟨_, Step.alloc s i hpc, by simp [upd]⟩
+  | own m k b =>
+    have hm : ∀ m k, afterMerge cfg m k = .own m k false := by intro m k; simp [afterMerge, safe.afterAll]
+    have hl : ∀ m k, afterLoop cfg m k = .own m k true := by intro m k; simp [afterLoop, safe.afterAll]
+    have ha : ∀ m k, afterCas cfg m k = .load := by intro m k; simp [afterCas, safe.afterAll, hr]
+    cases b with
+    | false =>
+      by_cases hk : k < cfg.entries
+      · exact ⟨_, Step.merge s i m k hpc hk, by simp [upd, hm]⟩
+      · exact ⟨_, Step.merge_end s i m k hpc hk, by simp [upd, hl]⟩
+    | true =>
+      cases hcell : s.cell with
+      | none => exact ⟨_, Step.cas_win s i m k hpc safe.cas hcell, by simp [upd, ha]⟩
+      | some v => exact ⟨_, Step.cas_lose s i m k v hpc safe.cas hcell, by simp [upd, ha]⟩
   | load =>
     cases hcell : s.cell with
     | none => exact absurd hcell (inv.load_set i hpc)
